@@ -219,7 +219,12 @@ def rule_T3_hash(ctx, F):
     if not okv and oks:
         # the same through an explicit match / map on the conversion's result: every Ok carries from_bytes(<the converted array>)
         okv = all(o[4] and find_sub(o[4][0], ("call", "Hash::from_bytes", (W(),))) is not None and any("TryInto" in show(c_) or "TryFrom" in show(c_) for c_ in calls) for o in oks)
-    ctx.ob(okv, "from_slice-ok-value", fn.loc, "Ok value = %s" % (show(oks[0])[:200] if oks else "none"))
+    if not okv and not oks:
+        # `bytes.try_into().map(Self::from_bytes)`: Result::map applies from_bytes to the Ok payload and passes Err through
+        e0 = val(fn.expr_local(0))
+        okv = e0[0] == "call" and norm_path(e0[1]).endswith("Result::<T, E>::map") and len(e0[2]) == 2 and e0[2][0][0] == "call" and "TryInto" in e0[2][0][1] \
+            and e0[2][0][2] == (("arg", 1, "bytes"),) and "from_bytes" in show(e0[2][1])
+    ctx.ob(okv, "from_slice-ok-value", fn.loc, "Ok value = %s" % (show(oks[0])[:200] if oks else show(val(fn.expr_local(0)))[:120]))
     ret = fn.j.get("ret", "")
     ctx.ob("TryFromSliceError" in ret, "from_slice-error-type", fn.loc, "return type %s" % ret)
 
